@@ -16,7 +16,9 @@ Step classes covered (what each `nodeDen` case states about the code):
 * `dot`     `DotProductCombinator` with parent-tag propagation: one combination for every received tag `k` such that
             every port holds a token whose tag is a prefix of `k`;
 * `cart`    `CartesianProductCombinator(depth = 1)`: tokens `p.i`, `p.j` with equal prefix give tag `p.i.j`;
-* `exec`    schedule / transfer / execute pipeline: one job per tag, output tagged `get_tag(job.inputs)`.
+* `exec`    schedule / transfer / execute pipeline: one job per tag, output tagged `get_tag(job.inputs)`;
+* `tf (.loop k)` a whole loop sub-network (LoopCombinatorStep + conditional + body + LoopOutputLast + terminator, built by
+            tests/utils/workflow.py) seen as one grouping node: per tag, counter and limit in, last counter value out.
 -/
 namespace SFV.Net
 
@@ -58,7 +60,14 @@ inductive Fn where
   | lin (k : Int)
   | pair
   | split
+  /-- a loop sub-network (LoopCombinatorStep, conditional step, body `+ k`, LoopOutputLast step) seen from outside:
+      inputs counter and limit, output the last counter value -/
+  | loop (k : Nat)
 deriving Repr
+
+/-- `c := c + k` while `c < l` (at least one iteration is performed in the generated workflows): the last value -/
+def loopLast (c l : Int) (k : Nat) : Int :=
+  if c < l ∧ 0 < k then c + (k : Int) * ((l - c + (k : Int) - 1) / (k : Int)) else c
 
 def linFold (vals : List Val) : Int := vals.foldl (fun acc v => acc * 31 + v.sum) 0
 
@@ -73,6 +82,7 @@ def applyFn (fn : Fn) (vals : List Val) : List Val :=
   | .lin k, vs => [.int (linFold vs + k)]
   | .pair, a :: b :: _ => [.list [a, b]]
   | .split, v :: _ => [v.map (· + 1), .int v.sum]
+  | .loop k, c :: l :: _ => [.int (loopLast c.sum l.sum k)]
   | _, _ => []
 
 def predHolds (m r : Nat) (v : Val) : Bool := v.sum % (m : Int) == (r : Int)
